@@ -210,7 +210,7 @@ class Runner:
                 elif name == "reset":
                     s.reset()
         except BaseException as e:   # noqa
-            if type(e).__name__ == "CaseTimeout" or type(getattr(e, "__cause__", None)).__name__ == "CaseTimeout":
+            if type(e).__name__ in ("CaseTimeout", "NoProgress") or type(getattr(e, "__cause__", None)).__name__ in ("CaseTimeout", "NoProgress"):
                 raise    # the per-case wall-clock watchdog: inconclusive, never part of the history
             out["raised"] = type(e).__name__
             if not isinstance(e, (self.de.exception_types.FailedIntegration, ValueError)):
